@@ -295,7 +295,22 @@ func (p *Program) compilePost(o *Obligation, ei *entryInfo, rc *replayCtx, resNa
 			oldNames[n] = fmt.Sprintf("old_a%d", i)
 		}
 	}
-	g := &goCompiler{names: names, oldNames: oldNames, rc: rc}
+	if sig.Recv() != nil {
+		rn := sig.Recv().Name()
+		if ei.c.Recv != "" {
+			rn = ei.c.Recv
+		}
+		if rn != "" && rn != "_" {
+			names[rn] = "recv"
+		}
+		names["recv"] = "recv"
+	}
+	g := &goCompiler{names: names, oldNames: oldNames, rc: rc, prog: p, pkg: ei.c.Pkg, subst: map[string]string{}}
+	for _, l := range ei.c.Lets {
+		if v, ok := g.expr(l.Expr); ok {
+			g.subst[l.Name] = v
+		}
+	}
 	src, ok := g.expr(cl.Expr)
 	if !ok {
 		return g.why, false
@@ -310,6 +325,10 @@ type goCompiler struct {
 	inOld    bool
 	rc    *replayCtx
 	why   string
+	prog  *Program
+	pkg   string
+	subst map[string]string // spec-function parameters / lets -> compiled Go text
+	depth int
 }
 
 func (g *goCompiler) expr(x *SExpr) (string, bool) {
@@ -320,6 +339,9 @@ func (g *goCompiler) expr(x *SExpr) (string, bool) {
 		switch x.Name {
 		case "true", "false", "nil":
 			return x.Name, true
+		}
+		if v, ok := g.subst[x.Name]; ok {
+			return v, true
 		}
 		if g.inOld {
 			if n, ok := g.oldNames[x.Name]; ok {
@@ -357,8 +379,55 @@ func (g *goCompiler) expr(x *SExpr) (string, bool) {
 			}
 			return x.Name + "(int64(" + a + "), int64(" + b + "))", true
 		}
+		// a spec function with a definition: expand it over the compiled arguments
+		if g.prog != nil && g.depth < 8 {
+			if sf := g.prog.specs.lookupFunc(x.Name, g.pkg); sf != nil && sf.Body != nil && len(sf.Params) == len(x.Args) {
+				saved := map[string]string{}
+				had := map[string]bool{}
+				var vals []string
+				for _, a := range x.Args {
+					v, ok := g.expr(a)
+					if !ok {
+						return "", false
+					}
+					vals = append(vals, v)
+				}
+				for i, prm := range sf.Params {
+					saved[prm.Name], had[prm.Name] = g.subst[prm.Name], false
+					if _, h := g.subst[prm.Name]; h {
+						had[prm.Name] = true
+					}
+					g.subst[prm.Name] = "(" + vals[i] + ")"
+				}
+				g.depth++
+				r, ok := g.expr(sf.Body)
+				g.depth--
+				for _, prm := range sf.Params {
+					if had[prm.Name] {
+						g.subst[prm.Name] = saved[prm.Name]
+					} else {
+						delete(g.subst, prm.Name)
+					}
+				}
+				return r, ok
+			}
+		}
 		g.why = "spec function " + x.Name
 		return "", false
+	case "field":
+		if g.inOld {
+			g.why = "old() of a field has no snapshot"
+			return "", false
+		}
+		a, ok := g.expr(x.Args[0])
+		if !ok {
+			return "", false
+		}
+		if strings.HasPrefix(x.Name, "$") {
+			g.why = "pseudo-field " + x.Name
+			return "", false
+		}
+		return a + "." + x.Name, true
 	case "index":
 		a, ok1 := g.expr(x.Args[0])
 		b, ok2 := g.expr(x.Args[1])
